@@ -30,11 +30,16 @@ RECURSIVE Perms(_)
 Perms(S) == IF S = {} THEN {<<>>} ELSE UNION {{<<x>> \o p : p \in Perms(S \ {x})} : x \in S}
 
 CONSTANTS NA, Rounds, PerRound, NotifyMode, ExitMode,
-          TempApps   \* application threads that use the blocking API style: a fresh queue per round
+          TempApps,  \* application threads that use the blocking API style: a fresh queue per round
                      \* (CreateCommandQueue; Enqueue...; DrainCommandQueue), all in one shared context
+          TwoPhaseApps \* application threads whose commands are two-phase (a memory copy through the DMA-path
+                     \* middleware): started in one driver tick (IsRunning), requests sent to the GPU in later
+                     \* ticks, completed (Dequeue) in the tick that reads the GPU's response
 
 Apps == 1..NA
 OwnApps == Apps \ TempApps
+TPInit == [running |-> [a \in Apps |-> FALSE], stage |-> [a \in Apps |-> "none"],
+           awaitq |-> <<>>, sendq |-> <<>>, outq |-> <<>>, gpuIn |-> <<>>, cyclesLeft |-> -1, rspDeq |-> FALSE]
 
 VARIABLES
   cmds,          \* [Apps -> Seq(Nat)]   pending commands of each queue
@@ -51,10 +56,13 @@ VARIABLES
   eprog,         \* the current tick made progress
   pauseLock,     \* "free" | "ra" | "eng"
   tickScheduled, \* a driver tick event is in the event queue
-  qorder         \* Seq(Apps): the queues in the order the driver scans them (creation order); the last
+  qorder,        \* Seq(Apps): the queues in the order the driver scans them (creation order); the last
                  \* entry of an application thread is its live queue, earlier ones are drained for good
+  tp             \* two-phase machinery: [running |-> [Apps -> BOOLEAN]   (CommandQueue.IsRunning),
+                 \*   stage |-> [Apps -> "none"|"awaiting"|"tosend"|"sent"|"atgpu"|"answered"],
+                 \*   awaitq, sendq, outq, gpuIn |-> Seq(Apps), cyclesLeft |-> -1|0, rspDeq |-> BOOLEAN]
 
-vars == <<cmds,issued,done,apc,round,left,sub,token,rpc,engineRunning,rerun,epc,eq,eprog,pauseLock,tickScheduled,qorder>>
+vars == <<cmds,issued,done,apc,round,left,sub,token,rpc,engineRunning,rerun,epc,eq,eprog,pauseLock,tickScheduled,qorder,tp>>
 
 Init ==
   /\ cmds = [a \in Apps |-> <<>>] /\ issued = [a \in Apps |-> <<>>] /\ done = [a \in Apps |-> <<>>]
@@ -63,6 +71,7 @@ Init ==
   /\ rpc = "select" /\ engineRunning = FALSE /\ rerun = FALSE
   /\ epc = "none" /\ eq = 1 /\ eprog = FALSE /\ pauseLock = "free" /\ tickScheduled = FALSE
   /\ qorder = SetToSortedSeq(OwnApps)
+  /\ tp = TPInit
 
 \* ------------------------------------------------------------------------
 \* NotifyAllSubscribers of queue q, executed by any thread.  Effect on the
@@ -82,7 +91,7 @@ AppEnq(a) ==            \* Enqueue: append under commandsMutex
      /\ cmds' = [cmds EXCEPT ![a] = Append(@, id)]
      /\ issued' = [issued EXCEPT ![a] = Append(@, id)]
   /\ apc' = [apc EXCEPT ![a] = "enqNotify"]
-  /\ UNCHANGED <<done,round,left,sub,token,rpc,engineRunning,rerun,epc,eq,eprog,pauseLock,tickScheduled,qorder>>
+  /\ UNCHANGED <<done,round,left,sub,token,rpc,engineRunning,rerun,epc,eq,eprog,pauseLock,tickScheduled,qorder,tp>>
 
 AppEnqNotify(a) ==      \* NotifyAllSubscribers after Enqueue, then next Enqueue or DrainCommandQueue
   /\ apc[a] = "enqNotify"
@@ -90,32 +99,32 @@ AppEnqNotify(a) ==      \* NotifyAllSubscribers after Enqueue, then next Enqueue
      /\ token' = r[2]
      /\ apc' = [r[1] EXCEPT ![a] = IF left[a] > 1 THEN "enq" ELSE "subscribe"]
   /\ left' = [left EXCEPT ![a] = @ - 1]
-  /\ UNCHANGED <<cmds,issued,done,round,sub,rpc,engineRunning,rerun,epc,eq,eprog,pauseLock,tickScheduled,qorder>>
+  /\ UNCHANGED <<cmds,issued,done,round,sub,rpc,engineRunning,rerun,epc,eq,eprog,pauseLock,tickScheduled,qorder,tp>>
 
 AppSubscribe(a) ==      \* q.Subscribe(): a fresh listener
   /\ apc[a] = "subscribe"
   /\ sub' = [sub EXCEPT ![a] = TRUE] /\ token' = [token EXCEPT ![a] = FALSE]
   /\ apc' = [apc EXCEPT ![a] = "signal"]
-  /\ UNCHANGED <<cmds,issued,done,round,left,rpc,engineRunning,rerun,epc,eq,eprog,pauseLock,tickScheduled,qorder>>
+  /\ UNCHANGED <<cmds,issued,done,round,left,rpc,engineRunning,rerun,epc,eq,eprog,pauseLock,tickScheduled,qorder,tp>>
 
 AppSignal(a) ==         \* d.enqueueSignal <- true  (unbuffered: rendezvous with runAsync's select)
   /\ apc[a] = "signal"
   /\ IF rpc = "inselect"
      THEN /\ apc' = [apc EXCEPT ![a] = "check"] /\ rpc' = "pause"
      ELSE /\ apc' = [apc EXCEPT ![a] = "sending"] /\ rpc' = rpc
-  /\ UNCHANGED <<cmds,issued,done,round,left,sub,token,engineRunning,rerun,epc,eq,eprog,pauseLock,tickScheduled,qorder>>
+  /\ UNCHANGED <<cmds,issued,done,round,left,sub,token,engineRunning,rerun,epc,eq,eprog,pauseLock,tickScheduled,qorder,tp>>
 
 AppCheck(a) ==          \* if q.NumCommand() == 0 { return }
   /\ apc[a] = "check"
   /\ apc' = [apc EXCEPT ![a] = IF cmds[a] = <<>> THEN "unsub" ELSE "wait"]
-  /\ UNCHANGED <<cmds,issued,done,round,left,sub,token,rpc,engineRunning,rerun,epc,eq,eprog,pauseLock,tickScheduled,qorder>>
+  /\ UNCHANGED <<cmds,issued,done,round,left,sub,token,rpc,engineRunning,rerun,epc,eq,eprog,pauseLock,tickScheduled,qorder,tp>>
 
 AppWait(a) ==           \* listener.Wait(): take a token or park
   /\ apc[a] = "wait"
   /\ IF token[a]
      THEN /\ token' = [token EXCEPT ![a] = FALSE] /\ apc' = [apc EXCEPT ![a] = "check"]
      ELSE /\ token' = token /\ apc' = [apc EXCEPT ![a] = "parked"]
-  /\ UNCHANGED <<cmds,issued,done,round,left,sub,rpc,engineRunning,rerun,epc,eq,eprog,pauseLock,tickScheduled,qorder>>
+  /\ UNCHANGED <<cmds,issued,done,round,left,sub,rpc,engineRunning,rerun,epc,eq,eprog,pauseLock,tickScheduled,qorder,tp>>
 
 AppUnsub(a) ==          \* return from DrainCommandQueue (deferred Unsubscribe), next round or finished
   /\ apc[a] = "unsub"
@@ -124,7 +133,7 @@ AppUnsub(a) ==          \* return from DrainCommandQueue (deferred Unsubscribe),
      THEN /\ round' = [round EXCEPT ![a] = @ + 1] /\ left' = [left EXCEPT ![a] = PerRound]
           /\ apc' = [apc EXCEPT ![a] = IF a \in TempApps THEN "create" ELSE "enq"]
      ELSE /\ round' = round /\ left' = left /\ apc' = [apc EXCEPT ![a] = "returned"]
-  /\ UNCHANGED <<cmds,issued,done,rpc,engineRunning,rerun,epc,eq,eprog,pauseLock,tickScheduled,qorder>>
+  /\ UNCHANGED <<cmds,issued,done,rpc,engineRunning,rerun,epc,eq,eprog,pauseLock,tickScheduled,qorder,tp>>
 
 \* CreateCommandQueue in the shared context: needs the context's queue mutex, which the engine goroutine
 \* holds for the whole scan of the context inside a driver tick.
@@ -134,7 +143,7 @@ AppCreate(a) ==
   /\ IF InTickPc(epc)
      THEN /\ apc' = [apc EXCEPT ![a] = "creating"] /\ UNCHANGED qorder      \* blocked on the mutex
      ELSE /\ apc' = [apc EXCEPT ![a] = "enq"] /\ qorder' = Append(qorder, a)
-  /\ UNCHANGED <<cmds,issued,done,round,left,sub,token,rpc,engineRunning,rerun,epc,eq,eprog,pauseLock,tickScheduled>>
+  /\ UNCHANGED <<cmds,issued,done,round,left,sub,token,rpc,engineRunning,rerun,epc,eq,eprog,pauseLock,tickScheduled,tp>>
 
 \* --------------------------------------------------------------- runAsync
 Sending == {a \in Apps : apc[a] = "sending"}
@@ -144,42 +153,46 @@ RASelect ==             \* enter select; completes the rendezvous if a sender is
   /\ IF Sending = {}
      THEN rpc' = "inselect" /\ apc' = apc
      ELSE \E a \in Sending : apc' = [apc EXCEPT ![a] = "check"] /\ rpc' = "pause"
-  /\ UNCHANGED <<cmds,issued,done,round,left,sub,token,engineRunning,rerun,epc,eq,eprog,pauseLock,tickScheduled,qorder>>
+  /\ UNCHANGED <<cmds,issued,done,round,left,sub,token,engineRunning,rerun,epc,eq,eprog,pauseLock,tickScheduled,qorder,tp>>
 
 RAPause ==              \* Engine.Pause()
   /\ rpc = "pause" /\ pauseLock = "free"
   /\ pauseLock' = "ra" /\ rpc' = "ticklater"
-  /\ UNCHANGED <<cmds,issued,done,apc,round,left,sub,token,engineRunning,rerun,epc,eq,eprog,tickScheduled,qorder>>
+  /\ UNCHANGED <<cmds,issued,done,apc,round,left,sub,token,engineRunning,rerun,epc,eq,eprog,tickScheduled,qorder,tp>>
 
 RATickLater ==          \* d.TickLater(): schedules a tick unless one is already scheduled
   /\ rpc = "ticklater"
   /\ tickScheduled' = TRUE /\ rpc' = "continue"
-  /\ UNCHANGED <<cmds,issued,done,apc,round,left,sub,token,engineRunning,rerun,epc,eq,eprog,pauseLock,qorder>>
+  /\ UNCHANGED <<cmds,issued,done,apc,round,left,sub,token,engineRunning,rerun,epc,eq,eprog,pauseLock,qorder,tp>>
 
 RAContinue ==           \* Engine.Continue()
   /\ rpc = "continue"
   /\ pauseLock' = "free" /\ rpc' = "flag"
-  /\ UNCHANGED <<cmds,issued,done,apc,round,left,sub,token,engineRunning,rerun,epc,eq,eprog,tickScheduled,qorder>>
+  /\ UNCHANGED <<cmds,issued,done,apc,round,left,sub,token,engineRunning,rerun,epc,eq,eprog,tickScheduled,qorder,tp>>
 
 RAFlag ==               \* under engineRunningMutex: start an engine goroutine unless one is running
   /\ rpc = "flag"
   /\ IF engineRunning
      THEN /\ rerun' = (IF ExitMode = "recheck" THEN TRUE ELSE rerun)
-          /\ UNCHANGED <<engineRunning, epc,qorder>>
+          /\ UNCHANGED <<engineRunning, epc>>
      ELSE /\ epc = "none"        \* the previous engine goroutine has ended (clear and exit are one step)
           /\ engineRunning' = TRUE /\ epc' = "acquire" /\ rerun' = rerun
   /\ rpc' = "select"
-  /\ UNCHANGED <<cmds,issued,done,apc,round,left,sub,token,eq,eprog,pauseLock,tickScheduled,qorder>>
+  /\ UNCHANGED <<cmds,issued,done,apc,round,left,sub,token,eq,eprog,pauseLock,tickScheduled,qorder,tp>>
 
 \* ----------------------------------------------------------------- engine
 EAcquire ==             \* engineMutex.Lock(); Engine.Run() up to the top of its loop
   /\ epc = "acquire" /\ epc' = "loop"
-  /\ UNCHANGED <<cmds,issued,done,apc,round,left,sub,token,rpc,engineRunning,rerun,eq,eprog,pauseLock,tickScheduled,qorder>>
+  /\ UNCHANGED <<cmds,issued,done,apc,round,left,sub,token,rpc,engineRunning,rerun,eq,eprog,pauseLock,tickScheduled,qorder,tp>>
 
-ELoop ==                \* noMoreEvent() ?  Run() returns : go on to take pauseLock
+GpuBusy == \E a \in Apps : tp.stage[a] \in {"sent", "atgpu"}
+
+ELoop ==                \* noMoreEvent() ?  Run() returns : go on to take pauseLock.  While the GPU still owes an
+                        \* answer the event queue is not empty in reality (the GPU's own events): the engine goes on.
   /\ epc = "loop"
+  /\ (tickScheduled \/ ~GpuBusy)
   /\ epc' = IF tickScheduled THEN "lockpause" ELSE "clear"
-  /\ UNCHANGED <<cmds,issued,done,apc,round,left,sub,token,rpc,engineRunning,rerun,eq,eprog,pauseLock,tickScheduled,qorder>>
+  /\ UNCHANGED <<cmds,issued,done,apc,round,left,sub,token,rpc,engineRunning,rerun,eq,eprog,pauseLock,tickScheduled,qorder,tp>>
 
 \* End of a driver tick: reschedule if progress was made, release pauseLock, back to the loop top.
 Creating == {a \in Apps : apc[a] = "creating"}
@@ -192,21 +205,55 @@ ReleaseCreators(apc0) ==
      /\ qorder' = qorder \o p
      /\ apc' = [a \in Apps |-> IF a \in Creating THEN "enq" ELSE apc0[a]]
 
-ELockPause ==           \* pauseLock.Lock(); pop the tick event; Driver.Tick up to the first queue scan
+\* The part of Driver.Tick that runs before the queues are scanned (no yield point inside):
+\* sendToGPUs (one request per tick), the copy middleware's delay stage (awaiting -> to send), and at most one
+\* response of the GPU: the command it answers is no longer running and is dequeued next.
+PreTick ==
+  LET sent  == tp.sendq # <<>>
+      st1   == IF sent THEN [tp.stage EXCEPT ![Head(tp.sendq)] = "sent"] ELSE tp.stage
+      sq1   == IF sent THEN Tail(tp.sendq) ELSE tp.sendq
+      oq1   == IF sent THEN Append(tp.outq, Head(tp.sendq)) ELSE tp.outq
+      moved == tp.cyclesLeft = 0
+      st2   == IF moved THEN [a \in Apps |-> IF st1[a] = "awaiting" THEN "tosend" ELSE st1[a]] ELSE st1
+      sq2   == IF moved THEN sq1 \o tp.awaitq ELSE sq1
+      aw2   == IF moved THEN <<>> ELSE tp.awaitq
+      rsp   == tp.gpuIn # <<>>
+      ra    == Head(tp.gpuIn)
+  IN [prog |-> sent \/ moved, rsp |-> rsp, ra |-> IF rsp THEN ra ELSE 0,
+      tp |-> [tp EXCEPT !.stage = IF rsp THEN [st2 EXCEPT ![ra] = "none"] ELSE st2,
+                        !.sendq = sq2, !.outq = oq1, !.awaitq = aw2,
+                        !.cyclesLeft = IF moved THEN -1 ELSE @,
+                        !.running = IF rsp THEN [@ EXCEPT ![ra] = FALSE] ELSE @,
+                        !.gpuIn = IF rsp THEN Tail(@) ELSE @,
+                        !.rspDeq = rsp]]
+LiveIndex(a) == CHOOSE i \in 1..Len(qorder) : qorder[i] = a /\ Live(i)
+
+ELockPause ==           \* pauseLock.Lock(); pop the tick event; Driver.Tick up to its first yield point
   /\ epc = "lockpause" /\ pauseLock = "free"
-  /\ IF Len(qorder) >= 1
-     THEN /\ pauseLock' = "eng" /\ tickScheduled' = FALSE /\ eq' = 1 /\ eprog' = FALSE /\ epc' = "scan"
-     ELSE TickEndCore(FALSE)          \* no queue yet: nothing is locked, nobody can be blocked on creation
+  /\ LET p == PreTick IN
+     /\ tp' = p.tp
+     /\ IF p.rsp
+        THEN /\ pauseLock' = "eng" /\ tickScheduled' = FALSE /\ eq' = LiveIndex(p.ra) /\ eprog' = TRUE /\ epc' = "deq"
+        ELSE IF Len(qorder) >= 1
+        THEN /\ pauseLock' = "eng" /\ tickScheduled' = FALSE /\ eq' = 1 /\ eprog' = p.prog /\ epc' = "scan"
+        ELSE TickEndCore(p.prog)         \* no queue yet: nothing is locked, nobody can be blocked on creation
   /\ UNCHANGED <<cmds,issued,done,apc,round,left,sub,token,rpc,engineRunning,rerun,qorder>>
 
-EScan ==                \* processNewCommandFromCmdQueue(q): empty (or drained for good) -> next queue; else Noop -> Dequeue
+\* processNewCommandFromCmdQueue(q): empty, drained for good, or its head command still running -> next queue;
+\* a Noop-like command -> Dequeue; a two-phase command -> started (IsRunning) and the scan goes on.
+EScan ==
   /\ epc = "scan"
-  /\ LET a == qorder[eq] IN
-     IF Live(eq) /\ cmds[a] # <<>>
-     THEN /\ epc' = "deq" /\ UNCHANGED <<eq, eprog, pauseLock, tickScheduled, apc, qorder>>
-     ELSE IF eq < Len(qorder)
-          THEN /\ eq' = eq + 1 /\ UNCHANGED <<epc, eprog, pauseLock, tickScheduled, apc, qorder>>
-          ELSE TickEndCore(eprog) /\ ReleaseCreators(apc)
+  /\ LET a == qorder[eq]
+         startable == Live(eq) /\ cmds[a] # <<>> /\ ~tp.running[a]
+     IN
+     IF startable /\ a \notin TwoPhaseApps
+     THEN /\ epc' = "deq" /\ UNCHANGED <<eq, eprog, pauseLock, tickScheduled, apc, qorder, tp>>
+     ELSE /\ tp' = IF startable
+                   THEN [tp EXCEPT !.running[a] = TRUE, !.stage[a] = "awaiting", !.awaitq = Append(@, a), !.cyclesLeft = 0]
+                   ELSE tp
+          /\ IF eq < Len(qorder)
+             THEN /\ eq' = eq + 1 /\ eprog' = (eprog \/ startable) /\ UNCHANGED <<epc, pauseLock, tickScheduled, apc, qorder>>
+             ELSE TickEndCore(eprog \/ startable) /\ ReleaseCreators(apc)
   /\ UNCHANGED <<cmds,issued,done,round,left,sub,token,rpc,engineRunning,rerun>>
 
 EDeq ==                 \* Dequeue: pop under commandsMutex
@@ -215,16 +262,19 @@ EDeq ==                 \* Dequeue: pop under commandsMutex
      /\ done' = [done EXCEPT ![a] = Append(@, Head(cmds[a]))]
      /\ cmds' = [cmds EXCEPT ![a] = Tail(@)]
   /\ epc' = "deqNotify"
-  /\ UNCHANGED <<issued,apc,round,left,sub,token,rpc,engineRunning,rerun,eq,eprog,pauseLock,tickScheduled,qorder>>
+  /\ UNCHANGED <<issued,apc,round,left,sub,token,rpc,engineRunning,rerun,eq,eprog,pauseLock,tickScheduled,qorder,tp>>
 
-EDeqNotify ==           \* NotifyAllSubscribers after Dequeue; then next queue or end of tick
+EDeqNotify ==           \* NotifyAllSubscribers after Dequeue; then the scan starts (after a response) or goes on
   /\ epc = "deqNotify"
   /\ LET r == NotifyEffect(qorder[eq], apc, token) IN
      /\ token' = r[2]
-     /\ IF eq < Len(qorder)
-        THEN /\ apc' = r[1] /\ eq' = eq + 1 /\ eprog' = TRUE /\ epc' = "scan"
+     /\ IF tp.rspDeq
+        THEN /\ apc' = r[1] /\ eq' = 1 /\ eprog' = TRUE /\ epc' = "scan" /\ tp' = [tp EXCEPT !.rspDeq = FALSE]
              /\ UNCHANGED <<pauseLock, tickScheduled, qorder>>
-        ELSE TickEndCore(TRUE) /\ ReleaseCreators(r[1])
+        ELSE IF eq < Len(qorder)
+        THEN /\ apc' = r[1] /\ eq' = eq + 1 /\ eprog' = TRUE /\ epc' = "scan"
+             /\ UNCHANGED <<pauseLock, tickScheduled, qorder, tp>>
+        ELSE TickEndCore(TRUE) /\ ReleaseCreators(r[1]) /\ UNCHANGED tp
   /\ UNCHANGED <<cmds,issued,done,round,left,sub,rpc,engineRunning,rerun>>
 
 EClear ==               \* Run() returned: clear the flag and end, or run again if a signal came meanwhile
@@ -232,16 +282,32 @@ EClear ==               \* Run() returned: clear the flag and end, or run again 
   /\ IF ExitMode = "recheck" /\ rerun
      THEN /\ rerun' = FALSE /\ epc' = "loop" /\ UNCHANGED engineRunning
      ELSE /\ engineRunning' = FALSE /\ epc' = "none" /\ rerun' = rerun
-  /\ UNCHANGED <<cmds,issued,done,apc,round,left,sub,token,rpc,eq,eprog,pauseLock,tickScheduled,qorder>>
+  /\ UNCHANGED <<cmds,issued,done,apc,round,left,sub,token,rpc,eq,eprog,pauseLock,tickScheduled,qorder,tp>>
+
+\* ------------------------------------------------------------------- GPU
+\* The (stub) GPU is part of the simulated world: its steps are events of the same engine, so they happen
+\* between two events of the driver (pauseLock free), never while an event is being handled.
+GPUTake ==              \* the oldest request leaves the driver's GPU port
+  /\ tp.outq # <<>> /\ pauseLock = "free"
+  /\ tp' = [tp EXCEPT !.stage[Head(tp.outq)] = "atgpu", !.outq = Tail(@)]
+  /\ UNCHANGED <<cmds,issued,done,apc,round,left,sub,token,rpc,engineRunning,rerun,epc,eq,eprog,pauseLock,tickScheduled,qorder>>
+
+GPUAnswer(a) ==         \* the response arrives in the driver's GPU port: NotifyRecv -> TickLater
+  /\ tp.stage[a] = "atgpu" /\ pauseLock = "free"
+  /\ tp' = [tp EXCEPT !.stage[a] = "answered", !.gpuIn = Append(@, a)]
+  /\ tickScheduled' = TRUE
+  /\ UNCHANGED <<cmds,issued,done,apc,round,left,sub,token,rpc,engineRunning,rerun,epc,eq,eprog,pauseLock,qorder>>
+
+GPUNext == GPUTake \/ \E a \in Apps : GPUAnswer(a)
 
 AppNext(a) == AppCreate(a) \/ AppEnq(a) \/ AppEnqNotify(a) \/ AppSubscribe(a) \/ AppSignal(a) \/ AppCheck(a) \/ AppWait(a) \/ AppUnsub(a)
 RANext == RASelect \/ RAPause \/ RATickLater \/ RAContinue \/ RAFlag
 ENext == EAcquire \/ ELoop \/ ELockPause \/ EScan \/ EDeq \/ EDeqNotify \/ EClear
-Next == (\E a \in Apps : AppNext(a)) \/ RANext \/ ENext
+Next == (\E a \in Apps : AppNext(a)) \/ RANext \/ ENext \/ GPUNext
 
 AllReturned == \A a \in Apps : apc[a] = "returned"
 Spec == Init /\ [][Next]_vars
-FairSpec == Spec /\ (\A a \in Apps : WF_vars(AppNext(a))) /\ WF_vars(RANext) /\ WF_vars(ENext)
+FairSpec == Spec /\ (\A a \in Apps : WF_vars(AppNext(a))) /\ WF_vars(RANext) /\ WF_vars(ENext) /\ WF_vars(GPUNext)
 
 \* ------------------------------------------------------------- properties
 IsPrefix(s, t) == Len(s) <= Len(t) /\ \A i \in 1..Len(s) : s[i] = t[i]
@@ -250,6 +316,10 @@ FIFO == \A a \in Apps : IsPrefix(done[a], issued[a])
 FIFOStep == [][\A a \in Apps : IsPrefix(done[a], done'[a])]_vars
 \* DrainCommandQueue returns only when every earlier command of the queue has completed
 DrainSound == \A a \in Apps : (apc[a] \in {"returned", "create", "creating"} \/ (apc[a] = "enq" /\ left[a] = PerRound)) => done[a] = issued[a]
+\* one command of a queue at a time: a command is started only when no command of its queue is running, and the
+\* running one is the head of the queue until its response has been read
+OneAtATime == \A a \in Apps : tp.running[a] => (cmds[a] # <<>> /\ tp.stage[a] \in {"awaiting", "tosend", "sent", "atgpu", "answered"})
+StageOK == \A a \in Apps : (tp.stage[a] # "none") => (tp.running[a] /\ a \in TwoPhaseApps)
 \* no structural deadlock: some thread can move unless every application thread has finished
 NoHang == (ENABLED Next) \/ AllReturned
 \* one pauseLock holder, engine only touches queues while holding it
